@@ -7,7 +7,7 @@ prop("C17", pkg="c17",
           "reference decoding. Any bytes: Next returns false within len+1 calls, error sticky. Reset: stream equals that of a new Tokenizer. Non-trivial = "
           "valid document of depth >= 2 containing an object, byte string of >= 4 bytes, or history with a failing/abandoned input followed by a valid one; "
           "distinct = FNV-64 of the inputs.",
-     quick=dict(shards=16, scale=1, timeout=900),
+     quick=dict(shards=16, scale=2, timeout=900),
      thorough=dict(shards=16, scale=25, timeout=3000),
      fuzz=[('FuzzTokenizer', 60)],
      technique="rapid property-based differential testing against a token model derived from encoding/json.Decoder.Token; stateful Reset histories",
